@@ -19,7 +19,8 @@ Fabric semantics
     Every such event is recorded in loop.dgram_errors.
 
 Choice points follow DESIGN.md A.1: canonical order STEP < DGRAM (oldest first) < TIMER < DROP < DUP, choice 0 is the
-default schedule (drain ready queue, oldest datagram, timer only when nothing else is pending).
+default schedule (drain ready queue, oldest datagram, timer only when nothing else is pending).  HOLD(k) (opt-in) delays a
+datagram until everything else that needs no timer has happened.
 """
 import os
 import pickle
@@ -172,12 +173,13 @@ class Alphabet:
     faults_oldest_only: fault events only for the oldest in-flight datagram at quiescent boundaries (loss and lateness
     commute with everything that happens before the datagram would have been delivered, so this is the canonical
     representative of "datagram j is lost/late")."""
-    __slots__ = ('reorder', 'timer', 'dup', 'drop', 'late', 'quiescent_only', 'faults_oldest_only')
+    __slots__ = ('reorder', 'timer', 'dup', 'drop', 'late', 'quiescent_only', 'faults_oldest_only', 'hold')
 
     def __init__(self, reorder=True, timer='hit', dup=False, drop=False, late=False, quiescent_only=False,
-                 faults_oldest_only=False):
+                 faults_oldest_only=False, hold=False):
         self.reorder, self.timer, self.dup, self.drop, self.late = reorder, timer, dup, drop, late
         self.quiescent_only, self.faults_oldest_only = quiescent_only, faults_oldest_only
+        self.hold = hold       # HOLD(k): datagram k is overtaken by everything else that can happen without a timer firing
 
     def describe(self):
         return {k: getattr(self, k) for k in self.__slots__}
@@ -186,6 +188,7 @@ class Alphabet:
 HIT_FULL = Alphabet(reorder=True, timer='hit', dup=True)
 HIT_QUIESCENT = Alphabet(reorder=True, timer='hit', dup=True, quiescent_only=True)
 LOSSY = Alphabet(reorder=False, timer=None, drop=True, late=True, faults_oldest_only=True)
+HIT_HOLD = Alphabet(reorder=True, timer='hit', dup=True, hold=True)
 
 
 class UdpLoop(VLoop):
@@ -208,6 +211,8 @@ class UdpLoop(VLoop):
         self._recent_deadlines = collections.deque()   # RPC deadlines of requests sent, ascending
         self.boundaries = 0        # iteration boundaries visited by run_until (the unit of every step horizon)
         self.dup_on_send = None    # optional predicate(Dgram): the network duplicates these datagrams (scripted histories)
+        self._was_held = set()
+        self.held = []             # datagrams delayed until nothing else is deliverable (released before any timer fires)
 
     # -- endpoint creation ---------------------------------------------------------------------------------------
     async def create_datagram_endpoint(self, protocol_factory, local_addr=None, remote_addr=None, **kw):
@@ -357,7 +362,24 @@ class UdpLoop(VLoop):
             if alpha.dup:
                 for k in ks:
                     ev.append(('DUP', k, 1, f'U{self.inflight[k].n}'))
+        if alpha.hold and len(self.inflight) + len(self._ready) > 1:
+            for k, d in enumerate(self.inflight):
+                if not d.copy and d.n not in self._was_held:
+                    ev.append(('HOLD', k, 1, f'H{d.n}'))
         return ev
+
+    def hold(self, k):
+        """Maximal delay that costs no virtual time: the datagram is delivered only when the ready queue and the rest of the
+        in-flight multiset have drained, but before any timer fires (so never past an RPC timeout)."""
+        d = self.inflight.pop(k)
+        self._was_held.add(d.n)
+        self.held.append(d)
+        self.stats['held'] += 1
+        return d
+
+    def _release_held(self):
+        self.inflight.extend(self.held)
+        self.held.clear()
 
     def late(self, k):
         """Hold datagram k until just after the RPC timeout of the request it belongs to (over-timeout delay)."""
@@ -387,6 +409,8 @@ class UdpLoop(VLoop):
             self.boundaries += 1
             if steps > max_steps:
                 return 'horizon_steps'
+            if self.held and not self._ready and not self.inflight:
+                self._release_held()
             explore = chooser is not None and (budget is None or spent < budget)
             if not explore:
                 if self._ready:
@@ -430,6 +454,8 @@ class UdpLoop(VLoop):
                 self.late(k)
             elif kind == 'DUP':
                 self.dup(k)
+            elif kind == 'HOLD':
+                self.hold(k)
 
     def run_task(self, coro, **kw):
         """Create a task for coro and drive it with run_until; returns (status, task)."""
